@@ -26,6 +26,31 @@ fn main() {
         "ctor-replay" => ctor::replay(rest),
         "ctor-fuzz" => ctor::fuzz(rest),
         "obj-replay" => obj::replay(rest),
+        "reg-check" => {
+            // do the registry entries exercise the internal representation their label claims? (read off Debug)
+            let mut bad: Vec<String> = vec![]; let mut n = 0usize; let mut seen = std::collections::BTreeSet::new();
+            for e in reg::registry() {
+                let Some(o) = (e.make)() else { bad.push(format!("{}: constructor failed", e.label())); continue };
+                let d = o.dbg(); n += 1;
+                let want: Vec<&str> = match (e.family, e.variant) {
+                    (_, "-") | (_, "beyond-E") | (_, "after-updates") => vec![],
+                    ("Gamma", v) => vec![match v { "Small" => "repr: Small(", "One" => "repr: One(", _ => "repr: Large(" }],
+                    ("ChiSquared", v) => vec![v],
+                    ("Beta", v) => vec![if v == "BB" { "algorithm: BB(" } else { "algorithm: BC(" }],
+                    ("Poisson", v) => vec![if v == "Knuth" { "Knuth(" } else { "Rejection(" }],
+                    ("Dirichlet", v) => vec![if v == "FromBeta" { "FromBeta(" } else { "FromGamma(" }],
+                    ("Hypergeometric", v) => vec![if v == "HIN" { "InverseTransform" } else { "RejectionAcceptance" }],
+                    ("Binomial", v) => { let mut w = vec![if v.starts_with("Binv") { "Binv(" } else if v.starts_with("Btpe") { "Btpe(" } else if v.starts_with("Poisson") { "Poisson(" } else { "Constant(" }];
+                                         if v.ends_with("flipped") { w.push(", true)"); } w }
+                    _ => vec![],
+                };
+                if !want.is_empty() { seen.insert(format!("{}:{}", e.family, e.variant)); }
+                for w in want { if !d.contains(w) { bad.push(format!("{} labelled {:?} but Debug is {}", e.label(), e.variant, &d[..d.len().min(120)])); } }
+            }
+            println!("{}", serde_json::json!({"tool": "reg-check", "entries": n, "mismatches": bad, "representations_confirmed": seen}));
+            0
+        }
+        "reg-dump" => { for e in reg::registry() { let d = (e.make)().map(|o| o.dbg()).unwrap_or("CONSTRUCTOR FAILED".into()); println!("{}\t{}\t{}", e.label(), e.variant, &d[..d.len().min(160)]); } 0 }
         "sup-drive" => sup::drive(rest),
         "disc-drive" => disc::drive(rest),
         "geom-drive" => geom::drive(rest),
